@@ -31,8 +31,13 @@ func vfMixes(checkC07, checkC08 bool, handover ...bool) {
 	rich := zzvf.Param("rich") == 1
 	evs := zzvf.Param("events")
 	w := vfNewWorld(Config{})
-	cl := w.connect("cidA", versionLatest)
+	// proto: the client's negotiated protocol version (0 latest, 1 = 1.2.0,
+	// the first version whose call/auth resource responses subscribe,
+	// 2 = 1.1.1, where they only name the resource)
+	proto := []int{versionLatest, versionCallResourceResponse, versionLegacy}[zzvf.ParamOr("proto", 0)]
+	cl := w.connect("cidA", proto)
 	r := vfNewRun(w, cl)
+	r.noCallSubscription = proto < versionCallResourceResponse
 	r.checkHandover = len(handover) > 0 && handover[0]
 	var kinds []vfReqKind
 	for i := 0; i < nreq; i++ {
